@@ -238,7 +238,7 @@ fn history(tape: &[u8], _render: bool) -> (Outcome, String) {
                         classes.insert("way:shutdown-msg");
                         let m = Message::Shutdown(Shutdown);
                         let obs = tryf!(send_and_run(&mut w, v, &m));
-                        let eff = w.model.step(v, &m, &obs);
+                        let eff = w.model.step(v, &m, &crate::model::ObsView::new(&obs));
                         tryf!(judge(&mut w, eff, obs));
                     }
                     1 => {
@@ -316,7 +316,7 @@ fn history(tape: &[u8], _render: bool) -> (Outcome, String) {
                         let saved = w.model.clone();
                         let saved_z = w.zombies.clone();
                         let saved_notes = w.notes.len();
-                        let eff = w.model.step(v, &m, &obs);
+                        let eff = w.model.step(v, &m, &crate::model::ObsView::new(&obs));
                         let mut eff_a = eff;
                         eff_a.problems.clear();
                         let ra = judge(&mut w, eff_a, obs.clone());
@@ -360,7 +360,7 @@ fn history(tape: &[u8], _render: bool) -> (Outcome, String) {
                     continue;
                 }
                 let obs = tryf!(send_and_run(&mut w, c, &m));
-                let eff = w.model.step(c, &m, &obs);
+                let eff = w.model.step(c, &m, &crate::model::ObsView::new(&obs));
                 tryf!(judge(&mut w, eff, obs));
             }
         }
